@@ -742,6 +742,11 @@ class Translator:
             raise Unmodelled("shape of symbolic tensor")
         if isinstance(obj, dict) and n.attr in obj:
             return obj[n.attr]
+        if isinstance(obj, dict) and n.attr in ("get", "__getitem__"):
+            # a bound dict method used as a value (sorted(.., key=order.get))
+            if n.attr == "get":
+                return PyFunc(lambda k_, d_=None, _o=obj: _o.get(_pykey(k_), d_))
+            return PyFunc(lambda k_, _o=obj: _o[_pykey(k_)])
         if isinstance(obj, SelfObj):
             return obj.get(n.attr, self, depth)
         if isinstance(obj, Opaque):
